@@ -138,6 +138,15 @@ CHECKS = {
             "tag lists with repeated keys and values containing ':' and '@', the three ARN shapes) and all histories of up to 4 "
             "succeeding / failing / raising evaluations; laws (symmetry, self-containment, literal patterns) are model invariants.",
             "Trusted: TLC, the recording probe function. Glob ranges, IPv6 and pre-release versions are not modelled.", "5/C17"),
+    "C18": ("TLA+ spec C7nXlate (Custodian combinator truth, truth-table contract over the atoms of the emitted text parsed by "
+            "CelSyntax!Parse) checked by TLC on a reference translation; the real translator's output for every model tree is "
+            "tokenised and accepted or rejected by TLC (Trace_C18); the library also evaluates it under all clause assignments",
+            "TLC enumerates filter trees (list / and / or / not, 1-3 children, singleton connectives, depth 2-3) x assignments of "
+            "top-level operator classes to the clauses (atom, !x, x && y, x || y, c ? x : y); for each the emitted CEL "
+            "(logical_connector and c7n_rewrite from YAML, real clause families: value, marked-for-op, offhour) must parse with the "
+            "specification's grammar and have the tree's truth table under every assignment to its atoms.",
+            "Trusted: TLC, the harness tokenizer. A clause with || at its top level is supplied by patching type_value_rewrite (no "
+            "shipped rewriter emits one).", "5/C18"),
 }
 NOT_YET = "check not built yet in this phase (planned per DESIGN.md section 5)"
 
